@@ -28,6 +28,8 @@ EXPLANATION = (
     "laws (inverse, composition) as statements about outputs on arbitrary inputs -- they follow from "
     "R1-R4 by a paper argument; the tool does not execute the function."
 )
+TECHNIQUE += '; key-completeness dataflow rule for local memo tables'
+EXPLANATION += ' Added: (R7) in functions that use convention tables, a value cached in a local dict under a key depends on no loop-variant variable that the key does not determine (positive control built in).'
 TRUSTED = ["CPython ast parser", "list.index returns the first position of an element", "numpy fancy indexing a[p] places a[p[i]] at position i"]
 
 
@@ -453,3 +455,14 @@ def run(ctx):
                     else:
                         ctx.violate("R5", f"a result of convert_conventions is never applied (permutation uses {puse}, sign uses {suse})", f, cs.node)
     ctx.floor("R5", nsites, 6, "convert_conventions call sites")
+
+    # ------------------------------------------------------------------ R7
+    ctx.rule("R7", "positions looked up in a convention table are not cached under a coarser key", "the component order found for the first shell of an angular momentum is silently reused for later shells listed in another order")
+    from .memo import check_local_memos
+
+    users = []
+    for f in prog.package_funcs():
+        if any(isinstance(n, ast.Name) and ("CONVENTIONS" in n.id or n.id == "convert_conventions") for n in f.own_nodes()):
+            users.append(f)
+    check_local_memos(ctx, "R7", users, "functions that use convention tables")
+    ctx.floor("R7", len(users), 12, "functions using convention tables")
